@@ -155,6 +155,10 @@ func checkC07(c *Check) {
 		}
 	}
 	c.Expect("11/idmap-failure-reported", 1)
+
+	// while the callback decides, nothing else talks to the container (any other command would be taken for approval)
+	importObs(c, "C17", "C17.5/env-mutex", "12/one-call-at-a-time", nil)
+	c.Expect("12/one-call-at-a-time", 10)
 }
 
 // isSyncChannel: v is element 1 of the [2]int parameter, possibly moved (phi with the scratch cursor).
@@ -453,7 +457,27 @@ func checkC07Parent(x *e1ctx) {
 			"a write on the sync channel that is neither the id-map status word nor the guarded acknowledge: it would release the child early")
 	}
 	c.Cond(nAck == 1, "2/parent-sync", key+":one-ack", pos, "exactly one acknowledge write", fmt.Sprintf("%d acknowledge writes after the callback", nAck))
-	c.Expect("2/parent-sync", 6)
+	// the parent's reads of the sync socket block until the child wrote or exec'd/exited: the descriptor is never made
+	// non-blocking (a poll that finds nothing yet would be taken for "the child exec'd": Start returns success while
+	// the child is still setting up, and its later failure report goes nowhere)
+	var nb []string
+	for _, ci := range callInstrsDeep(fn, 2) {
+		n, _ := calleeOf(ci)
+		if strings.HasSuffix(n, ".SetNonblock") {
+			if v, isC := constBool(ci.Common().Args[1]); !isC || v {
+				nb = append(nb, p.Pos(ci.Pos()))
+			}
+		}
+		if strings.HasSuffix(n, ".FcntlInt") || strings.HasSuffix(n, ".Fcntl") {
+			if len(ci.Common().Args) >= 3 {
+				if cmd, ok := constInt(ci.Common().Args[1]); ok && cmd == p.Sys("F_SETFL") {
+					nb = append(nb, p.Pos(ci.Pos()))
+				}
+			}
+		}
+	}
+	c.Cond(len(nb) == 0, "2/parent-sync", key+":blocking-reads", pos, "the sync socket stays in blocking mode in the parent", "the parent switches the sync socket to non-blocking mode at "+strings.Join(nb, ", "))
+	c.Expect("2/parent-sync", 7)
 
 	// ---------- 3: failure ⇒ killed and reaped ----------
 	var reaper *ssa.Function
@@ -598,7 +622,29 @@ func checkErrorLocations(x *e1ctx) {
 		}
 	}
 	// the final exit after exec fails
-	c.Expect("4/error-location", 40)
+	// the record that carries the index is as wide as the loop index: a narrower field reports item 256+k as k
+	if pk := p.Pkg("pkg/forkexec"); pk != nil {
+		if tn, ok := pk.Types.Scope().Lookup("ChildError").(*types.TypeName); ok {
+			if st, ok := tn.Type().Underlying().(*types.Struct); ok {
+				wide, found := false, false
+				ft := ""
+				for i := 0; i < st.NumFields(); i++ {
+					if st.Field(i).Name() == "Index" {
+						found = true
+						ft = st.Field(i).Type().String()
+						if b, ok := st.Field(i).Type().Underlying().(*types.Basic); ok {
+							switch b.Kind() {
+							case types.Int, types.Int64, types.Uint, types.Uint64, types.Uintptr:
+								wide = true
+							}
+						}
+					}
+				}
+				c.Cond(found && wide, "4/error-location", "forkexec.ChildError.Index:width", "pkg/forkexec/", "the index field is as wide as the loop index", "ChildError.Index has type "+ft+": the position of a failing mount / rlimit beyond its range is reported modulo its width (the error names the wrong step)")
+			}
+		}
+	}
+	c.Expect("4/error-location", 41)
 	// String(): every declared constant has a name different from "unknown"
 	strFn := p.Func("pkg/forkexec", "ErrorLocation.String")
 	var names []string
